@@ -1277,6 +1277,24 @@ func (e *absEnv) stdCall(fr *absFrame, name string, args []aval, depth int) (ava
 				return atuple{aint(0), aiface{aptr{&aobj{name: "strconv error", typ: types.Typ[types.Int], f: map[string]aval{}}, ""}, types.Typ[types.Int]}}, true
 			}
 		}
+	case "(encoding/binary.bigEndian).Uint16", "(encoding/binary.bigEndian).Uint32", "(encoding/binary.bigEndian).Uint64",
+		"(encoding/binary.littleEndian).Uint16", "(encoding/binary.littleEndian).Uint32", "(encoding/binary.littleEndian).Uint64":
+		n := map[string]int{"16": 2, "32": 4, "64": 8}[base[len(base)-2:]]
+		if sl, ok := args[len(args)-1].(avals); ok && len(sl.cells) >= n && n > 0 {
+			var v uint64
+			for k := 0; k < n; k++ {
+				b, ok := sl.cells[k].f[""].(aint)
+				if !ok {
+					return nil, false
+				}
+				if strings.Contains(base, "bigEndian") {
+					v = v<<8 | uint64(uint8(b))
+				} else {
+					v |= uint64(uint8(b)) << (8 * uint(k))
+				}
+			}
+			return aint(int64(v)), true
+		}
 	case "strconv.Itoa":
 		if v, ok := args[0].(aint); ok {
 			return astr(fmt.Sprintf("%d", int64(v))), true
